@@ -7,6 +7,7 @@ import Mmmbbb.Model.Tx
 import Mmmbbb.Model.Pure
 import Mmmbbb.Model.Api
 import Mmmbbb.Model.Ordered
+import Mmmbbb.Model.Ordered2
 import Mmmbbb.Model.Fragment
 open Mmmbbb Mmmbbb.Codec
 
@@ -261,13 +262,19 @@ structure DState where
   /-- steps inside / outside the fragment of `C05_fragment` (`fragOk`, evaluated in the state before the step) -/
   fragIn  : Nat := 0
   fragOut : Nat := 0
+  /-- the obligation without clock assumption (`Ord2.stepOk2`, `C05_ordered_ties`): steps that satisfy it,
+      non-excluded steps that do not -/
+  ord2Ok  : Nat := 0
+  ord2Bad : Nat := 0
 
 /-- the refinement obligation of one store step -/
 def ordCheck (ds : DState) (st' : St) (excluded : Bool) : DState × Option String :=
-  if Ord.stepOk true ds.st.db ds.st.now st'.db st'.now then ({ ds with ordChecked := ds.ordChecked + 1 }, none)
+  let ok2 := Ord2.stepOk2 ds.st.db ds.st.now st'.db st'.now
+  let ds := if ok2 then { ds with ord2Ok := ds.ord2Ok + 1 } else if excluded then ds else { ds with ord2Bad := ds.ord2Bad + 1 }
+  if Ord.stepOk true ds.st.db ds.st.now st'.db st'.now && ok2 then ({ ds with ordChecked := ds.ordChecked + 1 }, none)
   else if excluded then ({ ds with ordExcluded := ds.ordExcluded + 1 }, none)
-  else if Ord.stepOk false ds.st.db ds.st.now st'.db st'.now then ({ ds with ordStamps := ds.ordStamps + 1 }, none)
-  else (ds, some "MISMATCH kind=ordered-refinement the step is neither a growth nor a shrink of the deliveries table in the sense of Ord.stepOk")
+  else if ok2 then ({ ds with ordStamps := ds.ordStamps + 1 }, none)
+  else (ds, some "MISMATCH kind=ordered-refinement the step is neither a growth nor a shrink of the deliveries table in the sense of Ord2.stepOk2 (the obligation of C05_ordered_ties)")
 
 def sortNat (l : List Nat) : List Nat := sortBy id l
 
@@ -279,7 +286,7 @@ def handle (ds : DState) (line : String) : DState × String :=
   | op :: rest =>
     let fs := parseFields rest
     if op == "reset" then ({ lineNo := ds.lineNo }, "ok")
-    else if op == "ordstats" then (ds, s!"R checked={ds.ordChecked} excluded={ds.ordExcluded} stamps={ds.ordStamps} fragin={ds.fragIn} fragout={ds.fragOut}")
+    else if op == "ordstats" then (ds, s!"R checked={ds.ordChecked} excluded={ds.ordExcluded} stamps={ds.ordStamps} fragin={ds.fragIn} fragout={ds.fragOut} ties={ds.ord2Ok} tiesbad={ds.ord2Bad}")
     else if op == "dump" then
       let mine := dump ds.st.db
       match rest with
